@@ -166,6 +166,142 @@ def recursion_rule(rep):
     rep.floor("methods recursing through the evolution manager", 2)
 
 
+SMART = re.compile(r"^(const )?std::(shared_ptr|unique_ptr)<")
+
+
+def smart_pointer_rule(rep, funcs):
+    """NULL-GUARD (contradiction rule): a smart-pointer *member* that the code itself treats as possibly null - it is compared with nullptr
+    or reset somewhere in the analysed functions - is dereferenced only where it is known not to be null on the path: after
+    raise_if(p == nullptr, ...), inside 'if (p != nullptr)' / 'if (p)', or after an assignment of a new object.  Keyword handlers run in
+    any order the input file chooses, so a member set by one keyword is not known to be set when another one runs."""
+    def ptr_path(f, sid):
+        s_ = f.strip(sid)
+        n = f.stmts.get(s_)
+        if n is not None and n["k"] == "MemberExpr" and SMART.match(n.get("fieldType") or ""):
+            return f.path(s_)
+        return None
+
+    def null_lit(f, sid):
+        n = f.stmts.get(f.strip(sid))
+        return n is not None and n["k"] in ("CXXNullPtrLiteralExpr", "GNUNullExpr")
+    maybe_null = set()
+    for f in funcs:
+        for s_, n in f.stmts.items():
+            bo = f.binop(s_)
+            if bo and bo[0] in ("==", "!="):
+                for a, b in ((bo[1], bo[2]), (bo[2], bo[1])):
+                    p = ptr_path(f, a)
+                    if p and null_lit(f, b):
+                        maybe_null.add(p.rsplit(".", 1)[-1].replace("this->", ""))
+            if n["k"] == "CXXMemberCallExpr" and (n.get("callee") or "").endswith("::reset") and not n.get("args") and n.get("obj") is not None:
+                p = ptr_path(f, n["obj"])
+                if p:
+                    maybe_null.add(p.rsplit(".", 1)[-1].replace("this->", ""))
+    rep.count("smart-pointer members treated as possibly null", len(maybe_null))
+    nd = 0
+    for f in funcs:
+        if f.entry is None or f.parent is not None:
+            continue
+        # the parsing phase only: setters and keyword handlers, which an input file calls in the order it likes; the functions of the
+        # resolution run after completeInitialisation has validated the scheme and are not concerned
+        if not re.search(r"::(set|handle|add|register)[A-Z]\w*$", f.qname.split("(")[0]):
+            continue
+        sites = {}
+        for s_, n in f.stmts.items():
+            if n["k"] == "CXXOperatorCallExpr" and n.get("op") in ("->", "*") and n.get("args"):
+                p = ptr_path(f, n["args"][0])
+                if p and p.rsplit(".", 1)[-1].replace("this->", "") in maybe_null:
+                    sites[s_] = p
+        if not sites:
+            continue
+        nd += len(sites)
+
+        def atom(f_, s):
+            bo = f_.binop(s)
+            if bo and bo[0] in ("==", "!="):
+                for a, b in ((bo[1], bo[2]), (bo[2], bo[1])):
+                    p = ptr_path(f_, a)
+                    if p and null_lit(f_, b):
+                        return (("null", p), bo[0] == "!=")
+            n_ = f_.stmts.get(s)
+            if n_ is not None and n_["k"] == "CXXMemberCallExpr" and (n_.get("callee") or "").endswith("operator bool") and n_.get("obj") is not None:
+                p = ptr_path(f_, n_["obj"])
+                if p:
+                    return (("null", p), True)
+            return None
+        bad = {}
+
+        def el(st, b, i, e):
+            if "s" not in e:
+                return (st,)
+            s_ = e["s"]
+            n = f.stmts[s_]
+            fx = dict(st)
+            if n["k"] == "CallExpr" and (n.get("callee") or "").split("<")[0].endswith("raise_if") and n.get("args"):
+                if eval3(f, n["args"][0], fx, atom) is True:
+                    return ()
+                return (tuple(sorted(refine(f, f.strip(n["args"][0]), False, fx, atom).items(), key=repr)),)
+            if n["k"] == "CXXOperatorCallExpr" and n.get("op") == "=" and n.get("args"):
+                p = ptr_path(f, n["args"][0])
+                if p:
+                    fx[("null", p)] = bool(null_lit(f, n["args"][1])) if null_lit(f, n["args"][1]) else False
+                    return (tuple(sorted(fx.items(), key=repr)),)
+            if n["k"] == "CXXMemberCallExpr" and (n.get("callee") or "").endswith("::reset") and n.get("obj") is not None:
+                p = ptr_path(f, n["obj"])
+                if p:
+                    fx[("null", p)] = not n.get("args")
+                    return (tuple(sorted(fx.items(), key=repr)),)
+            if s_ in sites and fx.get(("null", sites[s_])) is not False:
+                bad.setdefault(sites[s_], s_)
+            return (st,)
+
+        def ed(st, b, succ, pol):
+            fx = branch(f, b, pol, dict(st), atom)
+            return () if fx is None else (tuple(sorted(fx.items(), key=repr)),)
+        forward(f, ((),), el, ed)
+        for p, s_ in sorted(bad.items()):
+            key = "NULL-GUARD@%s#%s" % (f.qname.split("(")[0], p)
+            if key in NULL_ACCEPTED:
+                rep.ok("accepted %s: %s" % (key, NULL_ACCEPTED[key]))
+                continue
+            rep.fail(key, "%s: %s dereferences '%s' on a path where it may be null (the member is compared with nullptr or reset elsewhere, and the "
+                     "keywords of an input file come in any order): a null dereference kills mtest with SIGSEGV" % (rel(f.short_loc(s_)), f.qname.split("(")[0], p))
+        for p in set(sites.values()) - set(bad):
+            rep.ok("%s: '%s' is dereferenced only where it is known not to be null" % (f.qname.split("(")[0], p), sample=False)
+    rep.count("dereferences of possibly-null smart-pointer members", nd)
+
+
+NULL_ACCEPTED = {}
+
+
+def main_catches_rule(rep):
+    """MAIN-CATCHES: errors of the input file are reported by exceptions; in the compiled configuration main calls MTestMain::execute inside a
+    try block with handlers, so that an invalid file ends in a failure status and not in std::terminate (SIGABRT)."""
+    d = cfgdump([os.path.join(REPO, "mtest/src/MTestMain.cxx")], os.path.join(OUT, "C54", "dumpmain"), funcs=r"^main$", root=REPO)
+    ms = [f for f in load_functions(d) if f.qname == "main" and f.parent is None]
+    if len(ms) != 1:
+        raise AnalysisBroken("main of mtest not found")
+    m = ms[0]
+    sites = [s_ for s_, n in m.stmts.items() if n["k"] == "CXXMemberCallExpr" and (n.get("callee") or "").endswith("MTestMain::execute")]
+    if not sites:
+        raise AnalysisBroken("main of mtest: the call of MTestMain::execute was not found")
+    pm = m.parent_map()
+    for s_ in sites:
+        rep.count("calls of MTestMain::execute in main")
+        q, ok = s_, False
+        while q in pm:
+            c = q
+            q = pm[q]
+            if m.stmts[q]["k"] == "CXXTryStmt" and m.kids(q) and m.kids(q)[0] == c and len(m.kids(q)) >= 2:
+                ok = True
+        if ok:
+            rep.ok("main of mtest runs MTestMain::execute in a try block")
+        else:
+            rep.fail("MAIN-CATCHES@mtest main", "%s: main of mtest calls MTestMain::execute outside any try block (in the configuration that is compiled): "
+                     "every error reported by an exception - any invalid input file - ends in std::terminate and mtest is killed by SIGABRT instead "
+                     "of exiting with a failure status" % rel(m.short_loc(s_)))
+
+
 def run(tier):
     rep = Report("C54", tier, "other", RULE)
     recursion_rule(rep)
@@ -188,6 +324,8 @@ def run(tier):
     check_ownership(rep, funcs, rel)
     import borrow
     borrow.rule(rep, funcs, lambda t: bool(ITER.search(t or "")), rel, 0)
+    smart_pointer_rule(rep, funcs)
+    main_catches_rule(rep)
     import progress
     progress.rule(rep, funcs, rel, {})
     more = [u for u in units_under("mtest/src") if u not in units] if tier == "thorough" else []
